@@ -222,8 +222,12 @@ Record stri := { s_text : text; s_sep : list N; s_base : nat; s_val : option nat
 (* meta_buffer.c over a 'c' array: data = None: no buffer; off/len = current slice; str = string address *)
 Record bufi := { m_data : option (list N); m_off : nat; m_len : nat; m_str : option nat; m_args : bool }.
 
+(* mptcore/types.h: mpt::source<T> - iterator over a span of c_elems (size() elements) with position and step;
+   c_ty = the type id of T (what advance() answers while a further element exists) *)
+Record csrc := { c_elems : list fv; c_pos : Z; c_step : Z; c_ty : Z }.
+
 Inductive src := SLin (s : lin) | SFac (s : fac) | SBnd (s : bnd) | SPol (s : pol)
-               | SVal (s : vals) | SStr (s : stri) | SBuf (s : bufi).
+               | SVal (s : vals) | SStr (s : stri) | SBuf (s : bufi) | SSrc (s : csrc).
 
 (* what reading the current element gives *)
 Inductive vres :=
@@ -355,6 +359,26 @@ Definition mk_values (t : text) (p : nat) : option vals :=
                      else Some {| v_text := t; v_base := p; v_next := Some (zpos p len); v_curr := v |}
   | _ => None
   end.
+
+(* ---- mpt::source<T> (mptcore/types.h), WITH docs/C19_span_negative_length.diff: a span created with a negative
+   length is empty.  value(): _pos < 0 || !nth(_pos) -> none;  advance(): outside -> MissingData, else _pos += _step and
+   0 when that leaves the span, else the type;  reset(): _pos = step < 0 ? size - 1 : 0, returns the size *)
+Definition csrc_size (s : csrc) : Z := Z.of_nat (length (c_elems s)).
+Definition csrc_in (s : csrc) (p : Z) : bool := (0 <=? p) && (p <? csrc_size s).
+Definition csrc_set (s : csrc) (p : Z) : csrc :=
+  {| c_elems := c_elems s; c_pos := p; c_step := c_step s; c_ty := c_ty s |}.
+Definition csrc_value (s : csrc) : option fv :=
+  if csrc_in s (c_pos s) then nth_error (c_elems s) (Z.to_nat (c_pos s)) else None.
+Definition csrc_advance (s : csrc) : Z * csrc :=
+  if csrc_in s (c_pos s) then
+    let p := c_pos s + c_step s in (if csrc_in s p then c_ty s else 0, csrc_set s p)
+  else (MissingData, s).
+Definition csrc_start (s : csrc) : Z := if c_step s <? 0 then csrc_size s - 1 else 0.
+Definition csrc_reset (s : csrc) : Z * csrc := (csrc_size s, csrc_set s (csrc_start s)).
+(* source(const T *val, long len, int step) over the first len of the given elements *)
+Definition mk_csrc (elems : list fv) (len step ty : Z) : csrc :=
+  {| c_elems := firstn (Z.to_nat (Z.max len 0)) elems;
+     c_pos := if step <? 0 then len - 1 else 0; c_step := step; c_ty := ty |}.
 
 (* ---- string iterator *)
 Definition str_set (s : stri) (v e r : option nat) : stri :=
@@ -532,6 +556,7 @@ Definition it_value (s : src) : vres * src :=
   | SVal m => (match val_value m with Some v => VNum 0 (Some v) | None => VNone end, s)
   | SStr m => let (v, m') := str_value m in (v, SStr m')
   | SBuf m => (buf_value m, s)
+  | SSrc m => (match csrc_value m with Some v => VNum 0 (Some v) | None => VNone end, s)
   end.
 Definition it_advance (s : src) : Z * src :=
   match s with
@@ -542,6 +567,7 @@ Definition it_advance (s : src) : Z * src :=
   | SVal m => let (r, m') := val_advance m in (r, SVal m')
   | SStr m => let (r, m') := str_advance m in (r, SStr m')
   | SBuf m => let (r, m') := buf_advance m in (r, SBuf m')
+  | SSrc m => let (r, m') := csrc_advance m in (r, SSrc m')
   end.
 Definition it_reset (s : src) : Z * src :=
   match s with
@@ -552,6 +578,7 @@ Definition it_reset (s : src) : Z * src :=
   | SVal m => let (r, m') := val_reset m in (r, SVal m')
   | SStr m => let (r, m') := str_reset m in (r, SStr m')
   | SBuf m => let (r, m') := buf_reset m in (r, SBuf m')
+  | SSrc m => let (r, m') := csrc_reset m in (r, SSrc m')
   end.
 (* metatype clone; None = not offered (polynomial) *)
 Definition it_clone (s : src) : option src :=
@@ -620,6 +647,7 @@ Definition it_meta (s : src) : option mres :=
   | SVal m =>
       Some {| mr_codes := [T_iter; T_d; T_s; T_s; BadType; T_iter; T_iter; 0];
               mr_fmt := [134]%N; mr_vec := None; mr_str := MStr (skipn (v_base m) (t_bytes (v_text m))) |}
+  | SSrc _ => None       (* a C++ iterator object, no metatype *)
   end.
 
 (* a source re-created from the description it hands out: conversion of the metatype to 's', then
@@ -627,7 +655,7 @@ Definition it_meta (s : src) : option mres :=
 Definition it_redesc (s : src) : option (Z + option src) :=
   match s with
   | SVal m => Some (inr (option_map SVal (mk_values (v_text m) (v_base m))))
-  | SStr _ | SBuf _ => None
+  | SStr _ | SBuf _ | SSrc _ => None
   | _ => Some (inl BadType)
   end.
 
